@@ -1,7 +1,7 @@
 /* C13 (and the URI part of C04) — URI parse / build / percent-coding / query iteration.
  * Lengths are constants per job (N, PRE, SHAPE, PD); all content bytes are symbolic. */
 #include "verif.h"
-#include <aws/common/uri.h>
+#include <uri.c> /* the unit under test is part of this TU: the parser's state functions are static */
 #include <aws/common/byte_buf.h>
 #include <aws/common/array_list.h>
 #include <aws/common/error.h>
@@ -22,13 +22,39 @@ static void all_inside(const struct aws_uri *u) {
     inside(u->path_and_query, &u->uri_str);
 }
 
+/* aws_uri_init_parse = zero the struct, copy the text, run s_init_from_uri_str.  s_init_from_uri_str dispatches through a table of
+ * function pointers indexed by the parser state inside a loop; CBMC's encoding of that loop needs > 7 GB for a 2-byte URI (measured),
+ * while the same state functions called in sequence need 1 s.  The harness therefore replaces ONLY the 12-line dispatcher by this
+ * explicit sequencing (the state variable still decides what runs next; the real static state functions are executed); the
+ * dispatcher itself is outside the claim. */
+static int verif_uri_dispatch(struct aws_uri *uri) {
+    struct uri_parser parser = {.state = ON_SCHEME, .uri = uri};
+    struct aws_byte_cursor cur = aws_byte_cursor_from_buf(&uri->uri_str);
+    if (parser.state == ON_SCHEME) s_parse_scheme(&parser, &cur);
+    if (parser.state == ON_AUTHORITY) s_parse_authority(&parser, &cur);
+    if (parser.state == ON_PATH) s_parse_path(&parser, &cur);
+    if (parser.state == ON_QUERY_STRING) s_parse_query_string(&parser, &cur);
+    ASSERT(parser.state >= FINISHED, "uri: the state machine reaches a final state after each state ran at most once, in order");
+    if (parser.state == FINISHED) return AWS_OP_SUCCESS;
+    aws_byte_buf_clean_up(&uri->uri_str);
+    AWS_ZERO_STRUCT(*uri);
+    return AWS_OP_ERR;
+}
+static int verif_uri_init_parse(struct aws_uri *uri, struct aws_allocator *allocator, const struct aws_byte_cursor *uri_str) {
+    AWS_ZERO_STRUCT(*uri);
+    uri->self_size = sizeof(struct aws_uri);
+    uri->allocator = allocator;
+    if (aws_byte_buf_init_copy_from_cursor(&uri->uri_str, allocator, *uri_str)) return AWS_OP_ERR;
+    return verif_uri_dispatch(uri);
+}
+
 /* ---- C04: arbitrary bytes ---- */
 void h_uri_parse_arbitrary(void) {
     uint8_t *t = verif_malloc(N ? N : 1);
     ND_FILL(t, N, N);
     struct aws_byte_cursor c = {.len = N, .ptr = N ? t : (nd_bool() ? t : NULL)};
     struct aws_uri u;
-    int rc = aws_uri_init_parse(&u, verif_allocator(), &c);
+    int rc = verif_uri_init_parse(&u, verif_allocator(), &c);
     if (rc == AWS_OP_SUCCESS) {
         ASSERT(u.uri_str.len == N, "uri: keeps a copy of the whole input");
         all_inside(&u);
@@ -171,7 +197,12 @@ static void mk_components(void) {
     if (HAS_USER) { put(&user, userch()); if (HAS_PASS) put(&pass, userch()); }
     if (!EMPTY_HOST) { if (IPV6) { put(&host, hostch()); put(&host, ':'); put(&host, hostch()); } else { put(&host, hostch()); } }
     port_val = 0;
+#ifdef PORTV
+    /* a concrete 10-digit port (widest value the builder must format): symbolic 10-digit ports through the snprintf model did not finish */
+    if (HAS_PORT) { static const char pv[] = PORTV; for (size_t i = 0; i < PD; ++i) { put(&port, (uint8_t)pv[i]); port_val = port_val * 10 + (uint64_t)(pv[i] - '0'); } }
+#else
     if (HAS_PORT) for (size_t i = 0; i < PD; ++i) { uint8_t d = nd_u8(); ASSUME(d >= '0' && d <= '9'); put(&port, d); port_val = port_val * 10 + (d - '0'); }
+#endif
     if (HAS_PATH) { put(&path, '/'); uint8_t c = nd_u8(); ASSUME(c != '?' && c != 0 && (HAS_SCHEME || c != ':')); put(&path, c); }
     if (HAS_QUERY) { uint8_t a = nd_u8(), b = nd_u8(); ASSUME(HAS_SCHEME || (a != ':' && b != ':')); put(&query, a); put(&query, b); }
 }
@@ -211,7 +242,7 @@ void h_uri_compose_parse(void) {
     ASSERT(n == LEN, "harness: composed length matches the shape");
     struct aws_byte_cursor c = {.len = LEN, .ptr = s};
     struct aws_uri u;
-    int rc = aws_uri_init_parse(&u, verif_allocator(), &c);
+    int rc = verif_uri_init_parse(&u, verif_allocator(), &c);
     if (LEN == 0) { ASSERT(rc == AWS_OP_ERR, "uri: empty string rejected"); WITNESS("uri empty"); return; }
     check_parsed(&u, rc);
 }
@@ -231,7 +262,7 @@ int snprintf(char *buf, size_t size, const char *fmt, ...) {
     return nd;
 }
 #endif
-void h_uri_builder_parse(void) {
+static void builder_parse(const bool as_list) {
     mk_components();
     ASSUME(!HAS_PORT || (port_val != 0 && port_val <= UINT32_MAX && port.b[0] != '0')); /* builder takes the port as a number; 0 means "no port" */
     struct aws_uri_builder_options o;
@@ -246,7 +277,6 @@ void h_uri_builder_parse(void) {
     o.path = (struct aws_byte_cursor){.len = path.n, .ptr = path.b};
     struct aws_uri_param qp[1];
     struct aws_array_list ql;
-    bool as_list = nd_bool();
     if (HAS_QUERY && as_list) {
         ASSUME(query.b[0] != '=' && query.b[0] != '&' && query.b[1] != '&' && query.b[1] != '=');
         qp[0].key = (struct aws_byte_cursor){.len = 1, .ptr = &query.b[0]};
@@ -257,8 +287,9 @@ void h_uri_builder_parse(void) {
         o.query_string = (struct aws_byte_cursor){.len = query.n, .ptr = query.b};
     }
     struct aws_uri u;
-    int rc = aws_uri_init_from_builder_options(&u, verif_allocator(), &o);
+    (void)aws_uri_init_from_builder_options(&u, verif_allocator(), &o); /* its final s_init_from_uri_str call is cut (returns nondet, touches nothing) */
     if (hn == 0 && !HAS_PORT && !HAS_PATH && !HAS_QUERY) return;
+    int rc = verif_uri_dispatch(&u); /* parse what the builder assembled */
     if (HAS_QUERY && as_list) { /* list form is written as key=value */
         ASSERT(rc == AWS_OP_SUCCESS, "uri: built URI parses");
         ASSERT(u.query_string.len == 3 && u.query_string.ptr[0] == query.b[0] && u.query_string.ptr[1] == '=' && u.query_string.ptr[2] == query.b[1], "uri builder: query list written as key=value");
@@ -266,3 +297,5 @@ void h_uri_builder_parse(void) {
     }
     check_parsed(&u, rc);
 }
+void h_uri_builder_parse(void) { builder_parse(false); }
+void h_uri_builder_parse_query_list(void) { builder_parse(true); }
